@@ -65,6 +65,20 @@ macro "fwd_triv" hI:term : tactic =>
     | exact fun _ => ⟨$hI, FwdRel.refl _⟩
     | exact fun _ => fwd_same $hI rfl rfl ($hI).2 rfl (by simp [Out.isChanEv]))
 
+theorem WP.keep_then0 {α : Type} {s : St} (hI : LifeInv s.1) {E1 : Ep}
+    (hch : E1.chans = s.1.chans) (hsrv : E1.isServer = s.1.isServer)
+    (hdc : ∀ d, E1.dcId = some d → d = parity s.1) {x : M α} {Q}
+    (k : LifeInv E1 → FwdRel s (E1, s.2) → WP x Q (E1, s.2)) : WP x Q (E1, s.2) := by
+  have := fwd_same hI (l' := s.2) (l2 := []) hch hsrv hdc (by simp) (by simp)
+  exact k this.1 this.2
+
+theorem WP.keep_then {α : Type} {s : St} (hI : LifeInv s.1) {E1 : Ep} {l2 : List Out}
+    (hch : E1.chans = s.1.chans) (hsrv : E1.isServer = s.1.isServer)
+    (hdc : ∀ d, E1.dcId = some d → d = parity s.1) (hev : ∀ o ∈ l2, o.isChanEv = false) {x : M α} {Q}
+    (k : LifeInv E1 → FwdRel s (E1, s.2 ++ l2) → WP x Q (E1, s.2 ++ l2)) : WP x Q (E1, s.2 ++ l2) := by
+  have := fwd_same hI (l' := s.2 ++ l2) (l2 := l2) hch hsrv hdc rfl hev
+  exact k this.1 this.2
+
 theorem fwd_dcReceive (sid ppid : Nat) (data : Bytes) : Pres fwdSpec (dcReceive sid ppid data) := by
   apply Pres.intro; intro s hI
   unfold dcReceive
@@ -95,8 +109,9 @@ theorem fwd_dcReceive (sid ppid : Nat) (data : Bytes) : Pres fwdSpec (dcReceive 
               rw [hc2]
               (try simp only)
               (try wp_head)
-              intro _
-              exact fwd_announce rfl h01 hI2 h12 hc2 rfl rfl rfl
+              refine WP.pres_after (S := fwdSpec) (s1 := (_, _)) (fwd_react 4 _) ?_ ?_
+              · refine (fwd_announce rfl h01 hI2 h12 hc2 ?_ ?_ ?_).1 <;> rfl
+              · refine (fwd_announce rfl h01 hI2 h12 hc2 ?_ ?_ ?_).2 <;> rfl
             · wp_head; exact fun _ => ⟨hI2, FwdRel.trans _ _ _ h01 h12⟩
     · split
       · split
@@ -123,7 +138,14 @@ theorem fwd_dcReceive (sid ppid : Nat) (data : Bytes) : Pres fwdSpec (dcReceive 
         simp only
         repeat' split
         all_goals (try wp_head)
-        all_goals fwd_triv hI
+        all_goals first
+          | fwd_triv hI
+          | (refine WP.keep_then hI ?_ ?_ ?_ ?_ ?_
+             · rfl
+             · rfl
+             · exact hI.2
+             · simp [Out.isChanEv]
+             · intro hI1 h01; exact WP.pres_after (S := fwdSpec) (fwd_react 3 _) hI1 h01)
 macro_rules | `(tactic| pres_leaf) => `(tactic| exact fwd_dcReceive _ _ _)
 
 theorem fwd_deliver (msgs : List Msg) : Pres fwdSpec (deliver msgs) := by
@@ -155,20 +177,6 @@ macro "fwd_keep" hI:term : tactic =>
   `(tactic| first
     | exact fwd_same $hI rfl rfl ($hI).2 rfl (by simp [Out.isChanEv])
     | exact fwd_same $hI (l2 := []) rfl rfl ($hI).2 (by simp) (by simp))
-
-theorem WP.keep_then0 {α : Type} {s : St} (hI : LifeInv s.1) {E1 : Ep}
-    (hch : E1.chans = s.1.chans) (hsrv : E1.isServer = s.1.isServer)
-    (hdc : ∀ d, E1.dcId = some d → d = parity s.1) {x : M α} {Q}
-    (k : LifeInv E1 → FwdRel s (E1, s.2) → WP x Q (E1, s.2)) : WP x Q (E1, s.2) := by
-  have := fwd_same hI (l' := s.2) (l2 := []) hch hsrv hdc (by simp) (by simp)
-  exact k this.1 this.2
-
-theorem WP.keep_then {α : Type} {s : St} (hI : LifeInv s.1) {E1 : Ep} {l2 : List Out}
-    (hch : E1.chans = s.1.chans) (hsrv : E1.isServer = s.1.isServer)
-    (hdc : ∀ d, E1.dcId = some d → d = parity s.1) (hev : ∀ o ∈ l2, o.isChanEv = false) {x : M α} {Q}
-    (k : LifeInv E1 → FwdRel s (E1, s.2 ++ l2) → WP x Q (E1, s.2 ++ l2)) : WP x Q (E1, s.2 ++ l2) := by
-  have := fwd_same hI (l' := s.2 ++ l2) (l2 := l2) hch hsrv hdc rfl hev
-  exact k this.1 this.2
 
 /-- continue compositionally after a prefix that kept the channel objects -/
 macro "fwd_rest" hI:term : tactic =>
